@@ -128,7 +128,7 @@ func Run(r *hx.Run, replay []hx.Case) {
 // run with a reduced AUTH-list family (they differ from "localhost" only in the string compared by isLocalhost).
 func Table(thorough bool) []dialx.Case {
 	var out []dialx.Case
-	replies := []string{"ok", "454", "554", "0"}
+	replies := []string{"ok", "454", "554", "0", "421"}
 	hss := []string{"ok", "wrongname", "untrusted", "garbage"}
 	type authv struct{ typ, custom string }
 	var auths []authv
@@ -164,6 +164,15 @@ func Table(thorough bool) []dialx.Case {
 				}
 				for _, adv := range []bool{false, true} {
 					row("N", adv, "ok", "ok")
+				}
+				// the AUTH exchange refused with 421 / 530 / 454 on the cleartext connection (the server does not disconnect)
+				if authDec == "ok" {
+					for _, d := range []string{"421", "530", "454"} {
+						save := authDec
+						authDec = d
+						row("N", false, "ok", "ok")
+						authDec = save
+					}
 				}
 				for _, pol := range []string{"M", "O"} {
 					row(pol, false, "ok", "ok")
